@@ -304,7 +304,12 @@ def run_case(case):
                 else:
                     R.ok("spreadsheet-restart")
             except Exception as e:
-                R.bad("spreadsheet-restart", "C10:spreadsheet-restart-fails[%s]" % type(e).__name__, {"error": str(e)[:300]})
+                if "This sheet is too large" in str(e):
+                    # a saved state with more duration bins than a worksheet has columns (16384) has no spreadsheet form: a limit of
+                    # the file format (reached here through a hostile calibration factor on a duration), counted and not judged
+                    R.count("saved_state_wider_than_a_worksheet")
+                else:
+                    R.bad("spreadsheet-restart", "C10:spreadsheet-restart-fails[%s]" % type(e).__name__, {"error": str(e)[:300]})
         prev_res, prev_arrays, prev_t, prev_parset = r1, B, t1, ps2
     sample = dict(simprop.sample_of(spec)) if spec is not None else dict(corpus.describe(case))
     sample.update({"chain": case["chain"], "programs": ps is not None, "spreadsheet": case["spreadsheet"]})
